@@ -1,67 +1,102 @@
 ---------------------------- MODULE YieldMachine ----------------------------
 (* C26 — the product machine: for a case (a structured flow and a linear program claimed to be its *)
 (* linearization) the structured interpreter (continuation stack sk) and the resumable state        *)
-(* machine (location loc) run in lock-step, from observable event to observable event, with the    *)
-(* condition outcomes chosen nondeterministically and SHARED by both sides.                         *)
-(*                                                                                                 *)
+(* machine (location loc) run side by side in SMALL STEPS:                                          *)
+(*   STau   the structured side performs a silent step (pop a finished sequence, unfold a loop);   *)
+(*   LTau   the linear side performs a silent step (no-op, jump) while the structured side waits   *)
+(*          at an observable event;                                                                *)
+(*   Sync   both sides are at an observable event: they must AGREE on it (same kind, same code);   *)
+(*          a command or yield is performed by both, a condition is evaluated by both and the      *)
+(*          outcome, chosen nondeterministically, is SHARED.                                        *)
 (* The reachable product states of one case are finite (the stack is bounded by the nesting of the *)
 (* flow), so TLC explores EVERY sequence of condition outcomes of ANY length; SameEvents is a state *)
 (* predicate, hence "same sequence of commands, condition evaluations and yields for every         *)
-(* sequence of condition outcomes" holds for a case iff SameEvents is an invariant of its product   *)
-(* machine (induction over the common prefix).                                                     *)
-(* Budget > 0 additionally bounds the number of condition evaluations (used by the simulation      *)
-(* mode); Budget = 0 means unbounded.                                                              *)
+(* sequence of condition outcomes" holds for a case iff SameEvents and NoSilentCycle are invariants *)
+(* of its product machine (induction over the common prefix of the two event sequences).           *)
+(* Budget > 0 additionally bounds the number of condition evaluations (simulation mode);           *)
+(* Budget = 0 means unbounded.                                                                     *)
 EXTENDS Yield
 
 CONSTANTS Cases,   \* sequence of [flow, subs, flat]
           Budget
 
 VARIABLES c,       \* index of the case
+          ph,      \* "new" (case chosen, machines not started), "first" (both at their start), "run"
           sk,      \* structured side: continuation stack
           loc,     \* linear side: location in Cases[c].subs
+          idle,    \* number of consecutive silent steps of the linear side
           spent    \* number of condition outcomes consumed (stays 0 when Budget = 0)
-vars == <<c, sk, loc, spent>>
+vars == <<c, ph, sk, loc, idle, spent>>
 
 Prog == Cases[c].subs
 Flat == Cases[c].flat
+\* a silent run of the linear side longer than the program is a silent cycle
+IdleLimit == Cases[c].n + 1
 
-SNext == SAdv(sk)
-LNext == LAdv(Prog, Flat, loc)
+SNow == SStep(sk)
+LNow == LStep(Prog, Flat, loc)
 
+\* one initial state per case; it is cheap on purpose (TLC computes initial states serially), the
+\* machines are started by the action Start
 Init ==
     /\ c \in 1..Len(Cases)
-    /\ sk = StartStack(Cases[c].flow)
-    /\ loc = StartLoc(Cases[c].subs)
-    /\ spent = 0
+    /\ ph = "new" /\ sk = <<>> /\ loc = End /\ idle = 0 /\ spent = 0
+
+Start ==
+    /\ ph = "new" /\ ph' = "first"
+    /\ sk' = StartStack(Cases[c].flow)
+    /\ loc' = StartLoc(Cases[c].subs)
+    /\ UNCHANGED <<c, idle, spent>>
+
+\* (the step results are parameters so that TLC evaluates SStep / LStep once per state)
+STau(s) ==
+    /\ s.ev = "tau"
+    /\ sk' = s.k
+    /\ ph' = "run" /\ UNCHANGED <<c, loc, idle, spent>>
+
+LTau(s, l) ==
+    /\ s.ev # "tau" /\ l.ev = "tau"
+    /\ idle < IdleLimit
+    /\ loc' = l.l /\ idle' = idle + 1
+    /\ ph' = "run" /\ UNCHANGED <<c, sk, spent>>
 
 \* both sides perform the same command or the same yield
-StepPlain ==
-    LET se == SNext le == LNext IN
-    /\ Agree(se, le) /\ se.ev \in {"cmd", "yield"}
-    /\ sk' = se.k /\ loc' = le.l
-    /\ UNCHANGED <<c, spent>>
+SyncPlain(s, l) ==
+    /\ s.ev \in {"cmd", "yield"} /\ Agree(s, l)
+    /\ sk' = s.k /\ loc' = l.l
+    /\ idle' = 0 /\ ph' = "run" /\ UNCHANGED <<c, spent>>
 
 \* both sides evaluate the same condition; the environment picks the outcome
-StepCond(b) ==
-    LET se == SNext le == LNext IN
-    /\ Agree(se, le) /\ se.ev = "cond"
+SyncCond(s, l, b) ==
+    /\ s.ev = "cond" /\ Agree(s, l)
     /\ (Budget = 0 \/ spent < Budget)
-    /\ sk' = (IF b THEN se.kT ELSE se.kF)
-    /\ loc' = (IF b THEN le.lT ELSE le.lF)
+    /\ sk' = (IF b THEN s.kT ELSE s.kF)
+    /\ loc' = (IF b THEN l.lT ELSE l.lF)
     /\ spent' = (IF Budget = 0 THEN 0 ELSE spent + 1)
-    /\ UNCHANGED c
+    /\ idle' = 0 /\ ph' = "run" /\ UNCHANGED c
 
-Next == StepPlain \/ \E b \in BOOLEAN : StepCond(b)
+Run == /\ ph # "new"
+       /\ LET s == SNow
+              l == LNow
+          IN  STau(s) \/ LTau(s, l) \/ SyncPlain(s, l) \/ \E b \in BOOLEAN : SyncCond(s, l, b)
+
+\* (the invariants look at the visible part of the next steps only: cheap)
+SEv == SEvent(sk)
+LEv == LEvent(Prog, loc)
+AtEvents == ph # "new" /\ SEv[1] # "tau" /\ LEv[1] # "tau"
+
+Next == Start \/ Run
 Spec == Init /\ [][Next]_vars
 
 -----------------------------------------------------------------------------
-\* dynamic clause
-SameEvents == Agree(SNext, LNext)
+\* dynamic clauses
+SameEvents == AtEvents => AgreeEvents(SEv, LEv)
+NoSilentCycle == idle < IdleLimit
 
-\* static clauses (state predicates that depend on c only)
-LabelsAreConsecutive == Flat \/ LabelsConsecutive(Prog)
-AllTargetsExist == IF Flat THEN TargetsExistFlat(Prog) ELSE TargetsExist(Prog)
+\* static clauses (they depend on c only; evaluated once per case, in its "first" state)
+LabelsAreConsecutive == ph = "first" => (Flat \/ LabelsConsecutive(Prog))
+AllTargetsExist == ph = "first" => (IF Flat THEN TargetsExistFlat(Prog) ELSE TargetsExist(Prog))
 
-\* sanity of the structured side: the stack never grows beyond the nesting depth (finite product)
-StackBounded == Len(sk) <= 2 * DepthOfSeq(Cases[c].flow) + 1
+\* sanity of the structured side (finite product): the stack is bounded by the size of the flow
+StackBounded == Len(sk) <= 2 * Cases[c].size + 1
 =============================================================================
